@@ -162,7 +162,19 @@ def check_factory(case):
         B = math.ceil(n / req) if mode == "batchsize" else (
             min(req, n) if mode == "num_batches" else n)
         c2 = xyz.Crop(name="c7", parent_dir=d)
+        # (the sown crop opened again through the farmer, without and with
+        # the original request: it reports what was sown)
+        c3 = farmer.Crop(name="c7", parent_dir=d)
+        c4 = farmer.Crop(name="c7", parent_dir=d, **kws)
         rep = (crop.num_batches, c2.num_batches, c2.num_sown_batches)
+        rep2 = [(c.num_batches, c.num_sown_batches,
+                 tuple(c.missing_results())) for c in (c3, c4)]
+        if rep == (B, B, B) and any(
+                x != (B, B, tuple(range(1, B + 1))) for x in rep2):
+            vio.append((tag + "reopened", "%s.Crop(%s=%r), %d settings, opened "
+                        "again through the %s: (num_batches, sown, missing) = "
+                        "%r, expected %d batches" % (far, mode, req, n, far,
+                                                     rep2, B)))
         if rep != (B, B, B):
             vio.append((tag + "count", "%s.Crop(%s=%r), %d settings: "
                         "num_batches=%r (reloaded %r, sown files %r), "
